@@ -213,7 +213,13 @@ public:
 		QualType T = E->getType();
 		if (T.isNull() || !(T->isIntegralOrEnumerationType()))
 			return;
-		if (E->HasSideEffects(Ctx))
+		// a call is assumed to have side effects; a call of a constexpr function (std::numeric_limits<T>::max()) is left to
+		// the evaluator, which rejects side effects itself
+		bool constexprCall = false;
+		if (const auto* CE = dyn_cast<CallExpr>(E->IgnoreParenImpCasts()))
+			if (const FunctionDecl* FD = CE->getDirectCallee())
+				constexprCall = FD->isConstexpr();
+		if (!constexprCall && E->HasSideEffects(Ctx))
 			return;
 		Expr::EvalResult R;
 		if (E->EvaluateAsInt(R, Ctx, Expr::SE_NoSideEffects) && R.Val.isInt()) {
